@@ -440,6 +440,9 @@ def run(ctx):
         ctx.extra["extraction"] = table["mode"]
         ctx.extra["table_methods"] = len(table["methods"])
         ctx.extra["table_steps"] = sum(len(s) for _, s in table["methods"])
+        _CK.clear()
+        _CK.update({tuple(k): set(v) for k, v in table.get("child_kinds", [])})
+        ctx.extra["child_kind_rows"] = len(_CK)
     except Exception as e:  # the obligation is already reported by the framework
         ctx.notes.append("table extraction failed: %s" % e)
     docs = documents(ctx)
@@ -511,10 +514,27 @@ def _identity_trace(text, kw):
     return tr
 
 
+_CK = {}
+
+
+def check_well_kinded(ctx, doc, text, kw):
+    """hypothesis `wellKinded childKinds t` of Props/C18_reach.lean (all_covered_children_visited, the sibling-order theorems):
+       every child class the parser produced is in the re-extracted child-kind table"""
+    if not _CK:
+        return
+    bad = T.ill_kinded(doc, _CK)
+    ctx.stat("well-kinded" if not bad else "ill-kinded")
+    for k, a, c in sorted(set(bad))[:3]:
+        ctx.fail("wellkinded:%s.%s:%s" % (k, a, c), "the parser produced a %s under %s.%s, outside the child-kind table extracted from "
+                 "lang/ast.py + probe documents: the hypothesis of the coverage / order theorems does not hold for this document" % (c, k, a),
+                 {"text": text, "kw": kw, "what": "wellkinded"}, kind="correspondence")
+
+
 def direct_oracle(ctx, text, kw, fail, exhaustive, big=False):
     r = O.check_structure(ctx, text, kw, fail)
     ctx.count()
     doc, idx, trace, entered = r
+    check_well_kinded(ctx, doc, text, kw)
     n = len(entered)
     if n >= 3:
         ctx.nontrivial(("structure", text))
@@ -644,6 +664,8 @@ def replay(ctx, data):
     def fail(s, w, d):
         seen.append(s)
     try:
+        if inp.get("what") == "wellkinded":
+            return not T.ill_kinded(O.parse_doc(text, kw), T.get_table().get("child_kinds", []))
         if "case" in inp:   # a correspondence disagreement: re-ask the model
             req, out = run_real(text, kw, inp["case"])
             ans = ctx.driver.ask([req])[0]
